@@ -457,6 +457,13 @@ func (wf *Workflow[I, O]) compile(ctx context.Context, options *graphCompileOpti
 
 	for _, n := range wf.workflowNodes {
 		if len(n.staticValues) > 0 {
+			// static values are part of the build like the deferred inputs above: set after a
+			// successful Compile they would change what the next Compile produces, so they are
+			// refused the way an AddInput declared after Compile is
+			if wf.g.compiled {
+				return nil, ErrGraphCompiled
+			}
+
 			value := make(map[string]any, len(n.staticValues))
 			var paths []FieldPath
 			for path, v := range n.staticValues {
@@ -499,6 +506,10 @@ func (wf *Workflow[I, O]) compile(ctx context.Context, options *graphCompileOpti
 			} else {
 				wf.g.handlerPreNode[n.key] = append([]handlerPair{pair}, wf.g.handlerPreNode[n.key]...)
 			}
+
+			// applied once, like n.addInputs: the handler stays in g.handlerPreNode, a later
+			// Compile must not add it (and its mapped paths) a second time
+			n.staticValues = make(map[string]any)
 		}
 	}
 
